@@ -2,6 +2,7 @@ import Prism.Model.Util
 import Prism.Model.Color
 import Prism.Check.C01
 import Prism.Driver.BytesOps
+import Prism.Driver.FloatOps
 
 /-!
 # Model driver: one operation per input line, one canonical answer per output line.
@@ -69,6 +70,9 @@ def c01Range (s : Space) (entry : String) (ch lo hi : Nat) : UInt64 := Id.run do
 
 def handle (toks : List String) : String :=
   match Ops.handleBytes toks with
+  | some r => r
+  | none =>
+  match Ops.handleFloat toks with
   | some r => r
   | none =>
   match toks with
